@@ -1759,6 +1759,10 @@ def lt(left: Any, right: Any) -> bool:
     return len(lkeys) < len(rkeys)
   elif hasattr(left, 'sym_lt'):
     return left.sym_lt(right)
+  elif left is None or isinstance(left, utils.MissingValue):
+    # `None` and `MISSING_VALUE` are the only values of their type order, thus
+    # `right` is the same value here, which is never less than itself.
+    return False
   return left < right
 
 
